@@ -455,8 +455,10 @@ class Report:
                 self.cov[k] = v
 
     def finish(self) -> int:
-        out = VERIF / "out"
-        out.mkdir(exist_ok=True)
+        # VERIF_OUT (set by tools/mutant.sh only): runs against a scratch tree leave /verif/evidence and /verif/out alone
+        base = Path(os.environ["VERIF_OUT"]) if os.environ.get("VERIF_OUT") else VERIF
+        out = base / "out"
+        out.mkdir(parents=True, exist_ok=True)
         for kid, (k, n) in sorted(self.known_hits.items()):
             print(f"KNOWN-FINDING: property={self.prop} {k['what']} [{kid}; {n} case(s) this run]")
         rc = 0
@@ -479,8 +481,8 @@ class Report:
         ev = {"property_id": self.prop, "tier": self.tier, "seed": seed(), "level": self.level,
               "coverage": cov, "assumptions": self.assumptions, "wall_s": round(time.time() - self.t0, 2),
               "violations": len(self.violations)}
-        (VERIF / "evidence").mkdir(exist_ok=True)
-        (VERIF / "evidence" / f"{self.prop}.json").write_text(json.dumps(ev, indent=1) + "\n")
+        (base / "evidence").mkdir(exist_ok=True)
+        (base / "evidence" / f"{self.prop}.json").write_text(json.dumps(ev, indent=1) + "\n")
         print(f"{self.prop} [{self.tier}] evaluations={cov['evaluations']} distinct_nontrivial={cov['distinct_nontrivial']} "
               f"violations={len(self.violations)} known={sum(n for _, n in self.known_hits.values())} wall={ev['wall_s']}s")
         return rc
